@@ -271,3 +271,216 @@ func ruleNoGlobalState(w *core.World, r *core.Report, rule string, roots ...*ssa
 		r.OK(rule, "no package variable reachable", "", "")
 	}
 }
+
+// ruleCaseAlternativesLoaded (C01, C08): when the winning case of a choice passes to a case that only OTHER intents
+// contribute to, that case's content has to be in the tree to be sent; the tree only holds what is read for it.
+func ruleCaseAlternativesLoaded(w *core.World, r *core.Report, rule string) {
+	low := w.Func("pkg/datastore", "Datastore", "lowlevelTransactionSet")
+	if low == nil {
+		return
+	}
+	fl := w.NewFlow()
+	nSrc := 0
+	for _, f := range w.RepoFns {
+		for _, c := range core.Calls(f) {
+			if core.CalleeIs(c, "tree.choiceCasesResolver.GetElementNames", "tree.choiceCasesResolvers.GetChoiceElementNeighbors", "tree.choiceCasesResolvers.GetSkipElements", "tree.choiceCasesResolver.GetSkipElements") {
+				if v := c.Value(); v != nil {
+					fl.AddSource(v)
+					nSrc++
+				}
+			}
+		}
+	}
+	fl.AddField("tree.choiceCasesResolver.elementToCaseMapping")
+	fl.Run()
+	reached := false
+	nSink := 0
+	for _, f := range w.RepoFns {
+		if strings.Contains(core.FuncKey(f), "mocks/") {
+			continue
+		}
+		for _, c := range core.Calls(f) {
+			if !core.CalleeIs(c, "tree.TreeCacheClient.Read", "tree.TreeCacheClient.ReadCurrentUpdatesHighestPriorities", "tree.TreeCacheClientImpl.Read", "tree.TreeCacheClientImpl.ReadCurrentUpdatesHighestPriorities", "cache.Client.Read", "cache.Client.ReadCh") {
+				continue
+			}
+			nSink++
+			for _, a := range core.CallArgs(c) {
+				if fl.Reaches(a) {
+					reached = true
+				}
+			}
+		}
+	}
+	r.Extra["case_alternatives_sources"] = nSrc
+	r.Extra["case_alternatives_read_sites"] = nSink
+	r.Check(reached, rule, core.Site(low, "content of sibling cases is read"), w.Pos(low.Pos()), "no read of stored content takes its paths from the members of a choice: when the winning case passes to a case held only by other intents (the ruling intent is deleted, or re-prioritised below them), that case's values are not in the tree and are never sent; the device is left without the case (or, for NETCONF, with the losing one)")
+}
+
+// ruleDecimalSign (C12): a decimal64 is (digits, precision). A rendering that formats digits/10^p and digits%10^p
+// separately loses the sign of every value in (-1, 0): the quotient is 0 and the remainder is made absolute.
+// Necessary condition checked: wherever an integer formatter receives a value that depends on Decimal64.Digits, it
+// either receives the whole Digits (no arithmetic in between) or the function tests the sign of Digits itself.
+func ruleDecimalSign(w *core.World, r *core.Report, rule string) {
+	isDigits := func(v ssa.Value) bool {
+		if core.FieldOf(v) == "github.com/sdcio/sdc-protos/sdcpb.Decimal64.Digits" {
+			if _, isAddr := v.(*ssa.FieldAddr); !isAddr {
+				return true
+			}
+		}
+		if c, ok := v.(*ssa.Call); ok && core.CalleeIs(c, "github.com/sdcio/sdc-protos/sdcpb.Decimal64.GetDigits") {
+			return true
+		}
+		return false
+	}
+	formatters := []string{"strconv.FormatInt", "strconv.Itoa", "fmt.Sprintf", "fmt.Sprint", "fmt.Fprintf", "strconv.AppendInt"}
+	n := 0
+	for _, f := range w.RepoFns {
+		if f.Pkg == nil || strings.Contains(f.Pkg.Pkg.Path(), "/mocks/") || strings.HasSuffix(f.Pkg.Pkg.Path(), "/tests/sdcioygot") {
+			continue
+		}
+		var digits []ssa.Value
+		for _, b := range f.Blocks {
+			for _, in := range b.Instrs {
+				if v, ok := in.(ssa.Value); ok && isDigits(v) {
+					digits = append(digits, v)
+				}
+			}
+		}
+		if len(digits) == 0 {
+			continue
+		}
+		signTested := false
+		for _, b := range f.Blocks {
+			for _, in := range b.Instrs {
+				bo, ok := in.(*ssa.BinOp)
+				if !ok {
+					continue
+				}
+				switch bo.Op {
+				case token.LSS, token.GTR, token.LEQ, token.GEQ:
+				default:
+					continue
+				}
+				whole := func(v ssa.Value) bool {
+					for _, o := range core.Origins(v) {
+						if isDigits(o) {
+							return true
+						}
+					}
+					return false
+				}
+				zero := func(v ssa.Value) bool { c, ok := core.ConstInt(v); return ok && c == 0 }
+				if (whole(bo.X) && zero(bo.Y)) || (whole(bo.Y) && zero(bo.X)) {
+					signTested = true
+				}
+			}
+		}
+		for _, c := range core.Calls(f) {
+			if !core.CalleeIs(c, formatters...) {
+				continue
+			}
+			for ai, a := range c.Common().Args {
+				sl := core.DataSlice(f, []ssa.Value{a})
+				dep := false
+				for _, d := range digits {
+					if sl.HasValue(d) {
+						dep = true
+					}
+				}
+				if !dep {
+					continue
+				}
+				// whole value: every Digits-dependent operand reaches the formatter without integer arithmetic
+				arith := false
+				for v := range sl.Values {
+					if bo, ok := v.(*ssa.BinOp); ok && (bo.Op == token.QUO || bo.Op == token.REM) {
+						sl2 := core.DataSlice(f, []ssa.Value{bo.X})
+						for _, d := range digits {
+							if sl2.HasValue(d) {
+								arith = true
+							}
+						}
+					}
+				}
+				n++
+				r.Check(!arith || signTested, rule, core.Site(f, "%s arg %d renders decimal digits", core.CalleeKey(c), ai), w.InstrPos(c), "the digits of a decimal64 are split by integer division / remainder before formatting and the sign of the whole number is never tested: values in (-1,0) lose their sign")
+			}
+		}
+	}
+	r.Extra["decimal_render_sites"] = n
+}
+
+// ruleOwnerReadComplete (C02, C09): the stored version of an intent is loaded completely. In ReadUpdatesOwner the
+// paths handed to Read are the whole per-priority path list of the index, or - when the list is read in chunks -
+// the chunk loop runs while 'index < len(list)' (not 'index+size <= len(list)', which never reads the remainder).
+func ruleOwnerReadComplete(w *core.World, r *core.Report, rule string) {
+	f := w.Func("pkg/tree", "TreeCacheClientImpl", "ReadUpdatesOwner")
+	if f == nil {
+		return
+	}
+	reads := core.CallsTo(f, "tree.TreeCacheClientImpl.Read", "tree.TreeCacheClient.Read", "cache.Client.Read")
+	if len(reads) == 0 {
+		r.Undecided(rule, core.Site(f, "Read"), w.Pos(f.Pos()), "ReadUpdatesOwner does not read")
+		return
+	}
+	for i, c := range reads {
+		a := core.CallArgs(c)
+		paths := a[len(a)-1]
+		if len(a) >= 3 && strings.HasPrefix(a[2].Type().String(), "[][]string") {
+			paths = a[2]
+		}
+		whole, chunked := false, false
+		var sl *ssa.Slice
+		for _, o := range core.Origins(paths) {
+			switch x := o.(type) {
+			case *ssa.Call:
+				if core.CalleeIs(x, "tree.PathSlices.ToStringSlice") {
+					whole = true
+				}
+			case *ssa.Slice:
+				chunked = true
+				sl = x
+			}
+		}
+		switch {
+		case chunked:
+			// the loop that contains the read: its condition must compare the bare index with len(list)
+			ok := false
+			detail := "no loop condition 'index < len(list)' guards the chunked read"
+			for _, g := range core.GuardsOf(c) {
+				bo, isB := g.If.Cond.(*ssa.BinOp)
+				if !isB || !g.CondTrue() {
+					continue
+				}
+				lc, isCall := bo.Y.(*ssa.Call)
+				if !isCall {
+					continue
+				}
+				if bi, isBi := lc.Call.Value.(*ssa.Builtin); !isBi || bi.Name() != "len" {
+					continue
+				}
+				if _, isPhi := bo.X.(*ssa.Phi); isPhi && bo.Op == token.LSS {
+					ok = true
+				} else {
+					detail = "the chunk loop runs while '" + bo.X.String() + " " + bo.Op.String() + " len(list)': the last len%size paths are never read"
+				}
+			}
+			// a read of the remainder after the loop also completes it
+			for _, c2 := range reads {
+				if c2 == c {
+					continue
+				}
+				for _, o := range core.Origins(core.CallArgs(c2)[len(core.CallArgs(c2))-1]) {
+					if s2, isS := o.(*ssa.Slice); isS && s2.High == nil && s2 != sl {
+						ok = true
+					}
+				}
+			}
+			r.Check(ok, rule, core.Site(f, "Read#%d covers the whole path list", i), w.InstrPos(c), detail)
+		case whole:
+			r.OK(rule, core.Site(f, "Read#%d covers the whole path list", i), w.InstrPos(c), "the complete path list of the priority is read")
+		default:
+			r.Viol(rule, core.Site(f, "Read#%d covers the whole path list", i), w.InstrPos(c), "the paths that are read do not come from the owner's path list of the index")
+		}
+	}
+}
